@@ -33,6 +33,9 @@ func c09DelayedOptions() []string {
 		`{"maxValidatorCnt":"9223372036854775807"}`,
 		`{"minValidatorStake":"1"}`,
 		`{"minValidatorStake":"115792089237316195423570985008687907853269984665640564039457584007913129639935"}`,
+		`{"minValidatorStake":"9223372036854775808000000000000000000"}`,
+		`{"minValidatorStake":"18446744073709551615000000000000000000"}`,
+		`{"minDelegatorStake":"9223372036854775808000000000000000000"}`,
 		`{"rewardPerPower":"115792089237316195423570985008687907853269984665640564039457584007913129639935"}`,
 		`{"lazyRewardBlocks":"-5"}`,
 		`{"lazyRewardBlocks":"9223372036854775807"}`,
@@ -81,13 +84,12 @@ func (c *c09) Meta() engine.Meta {
 		LevelName:        "1 = single mutation / single hostile field, 2 = pairs of hostile fields",
 		DeathIsViolation: true,
 		Technique:        "bounded-exhaustive enumeration of an input grammar against the real application at several states; oracle = no panic + liveness probe",
-		Rule: "inputs: (a) every byte string of length <= 2; (b) for a valid signed encoding of each of 10 base transactions (all 8 types, contract deploy and call, transfer to a contract): every prefix, every single-bit flip, every byte replaced by 00/7f/80/ff; (c) valid envelopes, RE-SIGNED by the sender, with every value of a per-field hostile menu (unknown / empty / 19 / 21 / 33 / 64-byte addresses, amounts 0 / 2^255 / 2^256-1, gas 0 / 2^63 / 2^64-1, prices, nonce 2^64-1, type 0 / 9 / -1 / 2^31-1, nil payload, payload of another type, 0 / 31 / 33-byte hashes, heights 0 / -1 / 2^63-1 / overflowing sums, option documents that are not JSON / deeply nested / wrong types / negative / huge numbers, empty option list, choice -1 / 2^31-1, 10 kB strings and code) — all single fields and all ordered pairs (thorough also at the fresh state, plus every pair of byte positions of each valid encoding replaced by 00/ff); (d) Query: 12 paths x 11 data shapes x 8 heights, plus vm_call with well-formed (from,to) over 3 senders x 14 targets (creation, EOA, unknown, two contracts, the nine precompiles) x 5 payloads x 7 heights. " +
+		Rule: "inputs: (a) every byte string of length <= 2; (b) for a valid signed encoding of each of 13 base transactions (all 8 types, contract deploy and call, transfer to a contract): every prefix, every single-bit flip, every byte replaced by 00/7f/80/ff; (c) valid envelopes, RE-SIGNED by the sender, with every value of a per-field hostile menu (unknown / empty / 19 / 21 / 33 / 64-byte addresses, amounts 0 / 2^255 / 2^256-1 and, from a sender that can afford them, 2^249 and the power-arithmetic limits (2^60-1, 2^60, 2^63-1, 2^63, 2^64-1, 2^64, 2^64+5 RIGO), gas 0 / 2^63 / 2^64-1, prices, nonce 2^64-1, type 0 / 9 / -1 / 2^31-1, nil payload, payload of another type, 0 / 31 / 33-byte hashes, heights 0 / -1 / 2^63-1 / overflowing sums, option documents that are not JSON / deeply nested / wrong types / negative / huge numbers, empty option list, choice -1 / 2^31-1, 10 kB strings and code) — all single fields and all ordered pairs (thorough also at the fresh state, plus every pair of byte positions of each valid encoding replaced by 00/ff); (d) Query: 12 paths x 11 data shapes x 8 heights, plus vm_call with well-formed (from,to) over 3 senders x 14 targets (creation, EOA, unknown, two contracts, the nine precompiles) x 5 payloads x 7 heights. " +
 			"Delivered through CheckTx and, inside a block, through DeliverTx, at a fresh chain (after 2 blocks) and after 4 blocks of the dense history. vm_call runs with the RPC environment Tendermint installs in production (stub block store). " +
-			"(e) delayed consequences: 26 governance option documents (negative, zero, maximal and overflowing values of every parameter, empty, unknown fields) are proposed, voted through and applied, followed by 6 busy blocks (staking, unstaking, evidence, missed signatures, withdrawals, a further proposal); and every hostile proposal SHAPE (option type on-chain / off-chain / unknown, no options, empty option, heights) delivered by a validator and followed by votes and 12 blocks. (f) every single deviation of the four shared history families (incl. evidence, missed signatures, proposer-less blocks): every ABCI call must return. Oracle: every call returns (a recovered panic or a dead worker process is a violation); after each batch the open block ends and commits, and a well-formed transfer in a following block succeeds. " +
+			"(e) delayed consequences: 29 governance option documents (negative, zero, maximal and overflowing values of every parameter, empty, unknown fields) are proposed, voted through and applied, followed by 6 busy blocks (staking, unstaking, evidence, missed signatures, withdrawals, a further proposal); and every hostile proposal SHAPE (option type on-chain / off-chain / unknown, no options, empty option, heights) delivered by a validator and followed by votes and 12 blocks. (f) every single deviation of the four shared history families (incl. evidence, missed signatures, proposer-less blocks): every ABCI call must return. Oracle: every call returns (a recovered panic or a dead worker process is a violation); after each batch the open block ends and commits, and a well-formed transfer in a following block succeeds. " +
 			"evaluations = input shards, counters.inputs = individual inputs; distinct_nontrivial = shards in which at least one input was ACCEPTED (code 0) and one rejected.",
 		Assumptions: []string{
 			"the claim is the enumerated grammar, not all byte strings",
-			"balances are bounded by the harness genesis (<= 10^4 RIGO per account), so the AmountToPower overflow that needs a balance >= 2^63 RIGO is outside the explored configurations",
 		},
 	}
 }
@@ -106,6 +108,10 @@ func c09Bases() []sim.TxSpec {
 		call("U1", "contract:0", "", "0"),
 		setdoc("U1", "bob", "http://b"),
 		with(tr("W", "contract:0", "0"), func(s *sim.TxSpec) { s.Gas = 60000 }, "to contract"),
+		// a sender that can afford amounts at the limits of the power arithmetic (2^60 .. 2^64 RIGO and beyond)
+		stk("R", "R", "2R"),
+		stk("R", "V1", "1R"),
+		call("R", "contract:0", "", "0"),
 	}
 }
 
@@ -141,6 +147,14 @@ func c09Hostiles() []hostile {
 		{"amount=1R", func(t *ctrlertypes.Trx) { t.Amount = sim.U256(sim.Rigo(1)) }},
 		{"amount=2^255", func(t *ctrlertypes.Trx) { t.Amount = two255 }},
 		{"amount=2^256-1", func(t *ctrlertypes.Trx) { t.Amount = max }},
+		{"amount=2^249", func(t *ctrlertypes.Trx) { t.Amount = sim.U256(sim.ParseAmount("2^249", nil, nil)) }},
+		{"amount=(2^60-1)R", func(t *ctrlertypes.Trx) { t.Amount = sim.U256(sim.ParseAmount("2^60-1R", nil, nil)) }},
+		{"amount=2^60R", func(t *ctrlertypes.Trx) { t.Amount = sim.U256(sim.ParseAmount("2^60R", nil, nil)) }},
+		{"amount=(2^63-1)R", func(t *ctrlertypes.Trx) { t.Amount = sim.U256(sim.ParseAmount("2^63-1R", nil, nil)) }},
+		{"amount=2^63R", func(t *ctrlertypes.Trx) { t.Amount = sim.U256(sim.ParseAmount("2^63R", nil, nil)) }},
+		{"amount=(2^64-1)R", func(t *ctrlertypes.Trx) { t.Amount = sim.U256(sim.ParseAmount("2^64-1R", nil, nil)) }},
+		{"amount=2^64R", func(t *ctrlertypes.Trx) { t.Amount = sim.U256(sim.ParseAmount("2^64R", nil, nil)) }},
+		{"amount=(2^64+5)R", func(t *ctrlertypes.Trx) { t.Amount = sim.U256(sim.ParseAmount("2^64+5R", nil, nil)) }},
 		{"gas=0", func(t *ctrlertypes.Trx) { t.Gas = 0 }},
 		{"gas=2^63", func(t *ctrlertypes.Trx) { t.Gas = 1 << 63 }},
 		{"gas=2^64-1", func(t *ctrlertypes.Trx) { t.Gas = ^uint64(0) }},
@@ -448,6 +462,7 @@ func (c *c09) Desc(i int) json.RawMessage { return sim.MustJSON(c.cases[i]) }
 func c09Genesis() *sim.Genesis {
 	g := genesis3()
 	g.Holders["L"] = "1000R" // the liveness prober
+	g.Holders["R"] = "2^250" // can afford every amount below 2^250
 	return g
 }
 
